@@ -66,6 +66,41 @@ def run(ctx):
                     cases.append(('dest_script %s %s' % (tn, a), hexp(t.outputs[-1].lock_script) if r is not None and t.outputs else 'none', True))
     ctx.compare(cases, 'address-to-script')
 
+    # ---- the generic encoders / converters of a destination: same string as the independent reference encoders ----------------------
+    from bitcoinlib.encoding import pubkeyhash_to_addr
+    from bitcoinlib.keys import addr_convert
+    for net in (nets if T else rng.sample(nets, 5)):
+        d = NETWORK_DEFINITIONS[net]
+        for _ in range(4 if T else 2):
+            h20, h32 = payload(20), payload(32)
+            want58 = b58addr(d['prefix_address'], h20)
+            want58s = b58addr(d['prefix_address_p2sh'], h20)
+            wantw = segwit_enc_ref(d['prefix_bech32'], 0, h20)
+            wantws = segwit_enc_ref(d['prefix_bech32'], 0, h32)
+            wantt = segwit_enc_ref(d['prefix_bech32'], 1, h32)
+            trials = [
+                ('pubkeyhash_to_addr base58', lambda: pubkeyhash_to_addr(h20, prefix=bytes.fromhex(d['prefix_address']), encoding='base58'), want58),
+                ('pubkeyhash_to_addr base58 hex hash', lambda: pubkeyhash_to_addr(h20.hex(), prefix=bytes.fromhex(d['prefix_address_p2sh']), encoding='base58'), want58s),
+                ('pubkeyhash_to_addr bech32 v0/20', lambda: pubkeyhash_to_addr(h20, prefix=d['prefix_bech32'], encoding='bech32'), wantw),
+                ('pubkeyhash_to_addr bech32 v0/32', lambda: pubkeyhash_to_addr(h32, prefix=d['prefix_bech32'], encoding='bech32', witver=0), wantws),
+                ('pubkeyhash_to_addr bech32 v1/32', lambda: pubkeyhash_to_addr(h32, prefix=d['prefix_bech32'], encoding='bech32', witver=1), wantt),
+                ('addr_convert base58->bech32', lambda: addr_convert(want58, d['prefix_bech32'], to_encoding='bech32'), wantw),
+                ('addr_convert bech32->base58', lambda: addr_convert(wantw, bytes.fromhex(d['prefix_address']), to_encoding='base58'), want58),
+                ('addr_convert bech32->base58 hex prefix', lambda: addr_convert(wantw, d['prefix_address_p2sh'], to_encoding='base58'), want58s),
+                ('addr_convert base58->base58 other prefix', lambda: addr_convert(want58, bytes.fromhex(d['prefix_address_p2sh'])), want58s),
+            ]
+            for name, fn, want in trials:
+                ctx.evals += 1
+                ctx.count('generic:' + name)
+                ctx.nontrivial.add(hash((name, want)))
+                try:
+                    got = fn()
+                except Exception as e:
+                    got = 'raise:%s' % type(e).__name__
+                if got != want:
+                    ctx.violation('generic address encoder / converter gives another address than the standard encoding of the same destination',
+                                  {'op': 'generic ' + name, 'network': net, 'hash': (h32 if '32' in name else h20).hex(), 'observed': got, 'expected': want})
+
     # ---- script -> address / type -----------------------------------------------------------------------------
     cases = []
     from harness.core import run_driver as rd
